@@ -1384,8 +1384,12 @@ func (w *Wallet) swapToSend(
 
 	splitForSendAmount := cashu.AmountSplit(amount)
 	var feesToReceive uint = 0
+	var splitForFees []uint64
 	if includeFees {
-		feesToReceive = feesForCount(len(splitForSendAmount)+1, activeSatKeyset)
+		splitForFees = feesSplitForCount(len(splitForSendAmount), activeSatKeyset)
+		for _, feeAmount := range splitForFees {
+			feesToReceive += uint(feeAmount)
+		}
 		amount += uint64(feesToReceive)
 	}
 
@@ -1399,7 +1403,7 @@ func (w *Wallet) swapToSend(
 	var rs, changeRs []*secp256k1.PrivateKey
 	var counter, incrementCounterBy uint32
 
-	split := append(splitForSendAmount, cashu.AmountSplit(uint64(feesToReceive))...)
+	split := append(splitForSendAmount, splitForFees...)
 	slices.Sort(split)
 	// if no spendingCondition passed, create blinded messages from counter
 	if spendingCondition == nil {
@@ -1592,6 +1596,30 @@ func feesForProofs(proofs cashu.Proofs, mint *walletMint) uint {
 		}
 	}
 	return (fees + 999) / 1000
+}
+
+// feesSplitForCount returns the amounts of the extra proofs to add to a send of count proofs
+// so that the receiver can pay the fees of spending all of them. The fees depend on the total
+// number of proofs, which includes these extra proofs, so it looks for a number of extra
+// proofs for which the fees can be split in exactly that number of proofs.
+func feesSplitForCount(count int, keyset *crypto.WalletKeyset) []uint64 {
+	for extra := 0; extra <= crypto.MAX_ORDER; extra++ {
+		fees := uint64(feesForCount(count+extra, keyset))
+		split := cashu.AmountSplit(fees)
+		if len(split) > extra || uint64(extra) > fees {
+			continue
+		}
+		// split the biggest amount in half until there are exactly 'extra' amounts
+		for len(split) < extra {
+			slices.Sort(split)
+			biggest := len(split) - 1
+			half := split[biggest] / 2
+			split[biggest] = half
+			split = append(split, half)
+		}
+		return split
+	}
+	return cashu.AmountSplit(uint64(feesForCount(count+1, keyset)))
 }
 
 func feesForCount(count int, keyset *crypto.WalletKeyset) uint {
